@@ -596,12 +596,48 @@ def clear_caches():
             pass
 
 
+def _group_interchange(s: "MSession", rng: random.Random, seed: int) -> dict:
+    """Two ==-groups (or !=-groups) with the same values in different orders compare equal (OrderedSet equality ignores
+    order); they must be interchangeable against a partner - in particular one whose values EXTEND theirs."""
+    var = rng.choice(list(STRING_VARS))
+    pool = STRING_VARS[var]
+    vals = rng.sample(pool, min(len(pool), rng.choice([2, 2, 3])))
+    other = vals[:]
+    while other == vals:
+        rng.shuffle(other)
+    eq = rng.random() < 0.6
+
+    def group(vs):
+        return " or ".join(f'{var} == "{v}"' for v in vs) if eq else " and ".join(f'{var} != "{v}"' for v in vs)
+    rest = [v for v in pool if v not in vals]
+    ext = vals + rng.sample(rest, min(len(rest), rng.choice([1, 1, 2]))) if rest else vals
+    k_text = rng.choice([group(ext), group(ext[::-1]), group(other[:1] + ext[len(vals):] if len(ext) > len(vals) else ext),
+                         f'({group(ext)}) {rng.choice(["and", "or"])} {gen_atom(rng, rng.choice([x for x in STRING_VARS if x != var]), reversed_ok=False)}'])
+    clear_caches()
+    m1, m2, k = s.parse(group(vals)), s.parse(group(other)), s.parse(k_text)
+    if None in (m1, m2, k) or s.dead:
+        return s.finish(seed + 1)
+    for name, fn in (("interchange_or", lambda x: s.binop("or", x, k)), ("interchange_and", lambda x: s.binop("and", x, k)),
+                     ("interchange_ror", lambda x: s.binop("or", k, x)), ("interchange_rand", lambda x: s.binop("and", k, x))):
+        clear_caches()
+        r1 = fn(m1)
+        clear_caches()
+        r2 = fn(m2) if r1 is not None else None
+        if r1 is None or r2 is None or s.dead:
+            break
+        s.law(name, r1, r2, pid="C13")
+    clear_caches()
+    return s.finish(seed + 1)
+
+
 def interchange_session(sid: int, seed: int) -> dict:
     """C13: objects that compare equal are interchangeable as operands.  Two spellings of one atom
     (literal on the right / on the left) are combined with the same third marker; the memo caches
     are emptied in between so that the second result is really computed from the second object."""
     rng = random.Random(seed)
     s = MSession(sid, seed)
+    if rng.random() < 0.3:
+        return _group_interchange(s, rng, seed)
     var = rng.choice(["python_version", "python_full_version", "platform_release", "sys_platform", "os_name"])
     pool = VERSION_VARS.get(var) or STRING_VARS[var]
     # ordering operators on string variables are plain string comparisons (valid PEP 508, evaluated the same way by
